@@ -231,7 +231,14 @@ def strtoul (s : List Nat) : Nat := strtoull s
 /-- conversion to `int` (two's complement, modulo 2^32) -/
 def wrapInt32 (v : Int) : Int := (v + 2147483648) % 4294967296 - 2147483648
 
-/-- glibc: `atoi(s) = (int) strtol(s, NULL, 10)`, `atoll(s) = strtoll(s, NULL, 10)` -/
+/-- ISO C11 7.22.1.2: `atoi(s)` is `(int)strtol(s, NULL, 10)` "except for the behavior on error. If the value of
+    the result cannot be represented, the behavior is undefined": `none` = undefined by ISO C -/
+def atoiC11 (s : List Nat) : Option Int :=
+  let v := strtol s
+  if -2147483648 ≤ v ∧ v ≤ 2147483647 then some v else none
+
+/-- glibc: `atoi(s) = (int) strtol(s, NULL, 10)` (the `long` is converted to `int` modulo 2^32: this is what the
+    undefined case of ISO C does on the platform the check runs on), `atoll(s) = strtoll(s, NULL, 10)` -/
 def atoi (s : List Nat) : Int := wrapInt32 (strtol s)
 def atoll (s : List Nat) : Int := strtoll s
 
@@ -244,6 +251,9 @@ def printf (cap : Nat) (text : List Nat) : List Nat :=
   if r.2 < cap then r.1.take r.2
   else (vsnprintf (r.2 + 1) text).1
 
+/-- which of the two branches of `String::printf` runs: `true` = the first `vsnprintf` sufficed -/
+def printfFirstTry (cap : Nat) (text : List Nat) : Bool := decide ((vsnprintf cap text).2 < cap)
+
 /-- capacity of a default constructed String after `detach(0, 200)`: `200 | 0x3` -/
 def printfCap : Nat := 203
 
@@ -252,9 +262,108 @@ def fromUInt (v : Nat) : List Nat := printf printfCap (decDigits v)       -- "%u
 def fromInt64 (v : Int) : List Nat := printf printfCap (fmtSigned v)      -- "%lld"
 def fromUInt64 (v : Nat) : List Nat := printf printfCap (decDigits v)     -- "%llu"
 
-def toInt (s : List Nat) : Int := atoi s
-def toUInt (s : List Nat) : Nat := strtoul s % 4294967296                 -- (uint) of unsigned long
-def toInt64 (s : List Nat) : Int := atoll s
-def toUInt64 (s : List Nat) : Nat := strtoull s
+/-- what a `const char*` consumer (libc) sees of a String value / of the pointer handed to a static overload:
+    the chars up to the first NUL (`operator const char*` yields the NUL terminated block; a value holding an
+    embedded NUL ends there for libc) -/
+def cstr (s : List Nat) : List Nat := s.takeWhile (fun c => c != 0)
+
+/-- member overloads: `atoi(*this)`, `strtoul(*this, 0, 10)`, `atoll(*this)`, `strtoull(*this, 0, 10)` -/
+def toInt (s : List Nat) : Int := atoi (cstr s)
+def toUInt (s : List Nat) : Nat := strtoul (cstr s) % 4294967296          -- (uint) of unsigned long
+def toInt64 (s : List Nat) : Int := atoll (cstr s)
+def toUInt64 (s : List Nat) : Nat := strtoull (cstr s)
+
+/-- static overloads `String::toInt(const char* s)` ...: separate function bodies in String.cpp (lines 161-164) -/
+def toIntS (s : List Nat) : Int := atoi (cstr s)
+def toUIntS (s : List Nat) : Nat := strtoul (cstr s) % 4294967296
+def toInt64S (s : List Nat) : Int := atoll (cstr s)
+def toUInt64S (s : List Nat) : Nat := strtoull (cstr s)
+
+/-! ## `String::isSpace` (String.hpp) and the `<cctype>` wrappers (String.cpp:168-175), "C" locale
+
+  `isSpace(char c)` is nstd's own expression on a (signed) `char` (taken by execution, like `Unicode::length`);
+  the others call libc with `(uchar&)c`. -/
+
+/-- `String::isSpace((char)b)`: the 256 values obtained by executing the current source (generated table) -/
+def strIsSpace (b : Nat) : Bool := strIsSpaceTable.getD (b % 256) 0 != 0
+
+/-- `<cctype>` in the "C" locale (ISO C11 7.4.1), on the `unsigned char` value: assumptions about libc -/
+def cIsUpper (b : Nat) : Bool := 65 ≤ b && b ≤ 90
+def cIsLower (b : Nat) : Bool := 97 ≤ b && b ≤ 122
+def cIsAlpha (b : Nat) : Bool := cIsUpper b || cIsLower b
+def cIsDigit (b : Nat) : Bool := 48 ≤ b && b ≤ 57
+def cIsAlnum (b : Nat) : Bool := cIsAlpha b || cIsDigit b
+def cIsXDigit (b : Nat) : Bool := cIsDigit b || (65 ≤ b && b ≤ 70) || (97 ≤ b && b ≤ 102)
+def cIsPrint (b : Nat) : Bool := 32 ≤ b && b ≤ 126
+def cIsPunct (b : Nat) : Bool := cIsPrint b && !(b == 32) && !cIsAlnum b
+
+/-- `lowerCaseMap[(uchar&)c]` / `upperCaseMap[(uchar&)c]`: checked reads of the generated 256-entry tables -/
+def toLowerCase (b : Nat) : Res Nat := rd lowerCaseMap b
+def toUpperCase (b : Nat) : Res Nat := rd upperCaseMap b
+
+/-! ## `String::fromDouble` (`printf("%f")`) and `String::toDouble` (`atof`)
+
+  A `double` is its IEEE-754 binary64 content: a finite value `(-1)^neg * m * 2^e`, an infinity or a NaN.
+  `%f` is a Lean DEFINITION of what ISO C11 7.21.6.1 (conversion `f`, default precision 6) and IEC 60559
+  (correct rounding, ties to even in the default rounding mode; glibc is exact) say: an assumption, compared
+  with the real libc by the correspondence run.  `strtod` is a PARAMETER of `toDouble`. -/
+
+inductive Dbl where
+  | fin (neg : Bool) (m : Nat) (e : Int)
+  | inf (neg : Bool)
+  | nan (neg : Bool)
+deriving Repr, DecidableEq
+
+/-- `q / d` rounded to the nearest integer, ties to even -/
+def roundHalfEven (q d : Nat) : Nat :=
+  let n := q / d
+  let r := q % d
+  if 2 * r < d then n else if 2 * r > d then n + 1 else if n % 2 = 0 then n else n + 1
+
+/-- the value times 10^6, rounded to an integer (exact when `e >= -6`) -/
+def scaled6 (m : Nat) (e : Int) : Nat :=
+  if 0 ≤ e then m * 2 ^ e.toNat * 1000000 else roundHalfEven (m * 1000000) (2 ^ (-e).toNat)
+
+/-- six decimal digits of `n < 10^6`, zero padded -/
+def pad6 (n : Nat) : List Nat :=
+  [48 + n / 100000 % 10, 48 + n / 10000 % 10, 48 + n / 1000 % 10, 48 + n / 100 % 10, 48 + n / 10 % 10, 48 + n % 10]
+
+/-- `%f` -/
+def fmtF : Dbl → List Nat
+  | .fin neg m e =>
+    let n := scaled6 m e
+    (if neg then [45] else []) ++ decDigits (n / 1000000) ++ [46] ++ pad6 (n % 1000000)
+  | .inf neg => (if neg then [45] else []) ++ [105, 110, 102]        -- "inf"
+  | .nan neg => (if neg then [45] else []) ++ [110, 97, 110]         -- "nan"
+
+def fromDouble (x : Dbl) : List Nat := printf printfCap (fmtF x)
+
+/-- `atof(s) = strtod(s, NULL)` (C11 7.22.1.1), member `atof(*this)` and static `atof(s)` -/
+def toDouble (strtod : List Nat → Dbl) (s : List Nat) : Dbl := strtod (cstr s)
+def toDoubleS (strtod : List Nat → Dbl) (s : List Nat) : Dbl := strtod (cstr s)
+
+/-- `num / 10^k = m * 2^e` exactly (cross-multiplied, natural numbers only) -/
+def exactValue (num k m : Nat) (e : Int) : Prop :=
+  if 0 ≤ e then num = m * 2 ^ e.toNat * 10 ^ k else num * 2 ^ (-e).toNat = m * 10 ^ k
+
+/-- same sign and same value (a bit pattern has exactly one canonical `(m, e)`; this compares values so that
+    `5 * 2^0` and `10 * 2^-1` are the same double) -/
+def Dbl.eqv : Dbl → Dbl → Prop
+  | .fin n1 m1 e1, .fin n2 m2 e2 =>
+    n1 = n2 ∧ m1 * 2 ^ (e1 - min e1 e2).toNat = m2 * 2 ^ (e2 - min e1 e2).toNat
+  | .inf n1, .inf n2 => n1 = n2
+  | .nan n1, .nan n2 => n1 = n2
+  | _, _ => False
+
+/-- ASSUMPTION about `strtod` used by the round-trip theorem (C11 7.22.1.3p5 with IEC 60559 / Annex F.5: the
+    decimal form is correctly rounded; a correctly rounded result of a value that IS a double is that double):
+    for a text `[-]digits.digits` whose decimal value equals `m * 2^e` with `m < 2^53`, `-1074 <= e <= 971`
+    the result is that double -/
+def StrtodExact (strtod : List Nat → Dbl) : Prop :=
+  ∀ (neg : Bool) (ip fp : List Nat) (m : Nat) (e : Int),
+    (∀ d ∈ ip, isDigit d = true) → ip ≠ [] → (∀ d ∈ fp, isDigit d = true) →
+    exactValue ((ip ++ fp).foldl (fun acc d => acc * 10 + (d - 48)) 0) fp.length m e →
+    m < 9007199254740992 → -1074 ≤ e → e ≤ 971 →
+    Dbl.eqv (strtod ((if neg then [45] else []) ++ (ip ++ (46 :: fp)))) (.fin neg m e)
 
 end Nstd.Codec
